@@ -4,6 +4,7 @@ import (
 	"context"
 	"errors"
 	"fmt"
+	"os"
 	"runtime"
 	"sort"
 	"strings"
@@ -225,6 +226,14 @@ func renderReqs(rs []fakeeth.GetLogsReq) string {
 func run(p Prog) *prog.Result {
 	res := &prog.Result{}
 	classes := map[string]bool{}
+	t0 := time.Now()
+	var script []string
+	debugDump := func() string { return "" }
+	defer func() {
+		if d := time.Since(t0); d > time.Second && os.Getenv("VERIF_C13_DEBUG") != "" {
+			fmt.Fprintf(os.Stderr, "SLOW %v discard=%v classes=%v start=%d follow=%d batch=%d script=%v\n%s\n", d, res.Discard, classes, p.Start, p.Follow, p.Batch, script, debugDump())
+		}
+	}()
 	defer func() {
 		for c := range classes {
 			res.Classes = append(res.Classes, c)
@@ -243,6 +252,10 @@ func run(p Prog) *prog.Result {
 	defer srv.Close()
 	o := &obs{}
 	logger, logbuf := newLogger(srv, o)
+	debugDump = func() string {
+		st := srv.Snapshot()
+		return fmt.Sprintf("  state=%+v\n  entries:\n%s  log:\n%s", st, renderEntries(o.entries), renderLogs(logbuf))
+	}
 	ctx, cancel := context.WithCancel(context.Background())
 	defer cancel()
 	ec, err := executionclient.New(ctx, srv.URL(), contractAddr,
@@ -284,7 +297,6 @@ func run(p Prog) *prog.Result {
 	}
 
 	head := p.Head0
-	var script []string
 	for i, s := range p.Steps {
 		if !ensureLive() {
 			break
